@@ -115,11 +115,10 @@ func appliedEvents(cau chain.ApplyUpdate, walletAddress types.Address) (events [
 	}
 
 	for _, txn := range block.Transactions {
-		if !relevantV1Txn(txn, walletAddress) {
-			continue
-		}
+		// a siafund claim is relevant when its output pays the wallet,
+		// whoever owns the siafund input and whatever else the transaction does
 		for _, si := range txn.SiafundInputs {
-			if si.UnlockConditions.UnlockHash() == walletAddress {
+			if si.ClaimAddress == walletAddress {
 				outputID := si.ParentID.ClaimOutputID()
 				sce, ok := siacoinElements[outputID]
 				if !ok {
@@ -130,6 +129,9 @@ func appliedEvents(cau chain.ApplyUpdate, walletAddress types.Address) (events [
 					SiacoinElement: sce.Copy(),
 				}, sce.MaturityHeight)
 			}
+		}
+		if !relevantV1Txn(txn, walletAddress) {
+			continue
 		}
 
 		event := EventV1Transaction{
@@ -149,11 +151,8 @@ func appliedEvents(cau chain.ApplyUpdate, walletAddress types.Address) (events [
 	}
 
 	for _, txn := range block.V2Transactions() {
-		if !relevantV2Txn(txn, walletAddress) {
-			continue
-		}
 		for _, si := range txn.SiafundInputs {
-			if si.Parent.SiafundOutput.Address == walletAddress {
+			if si.ClaimAddress == walletAddress {
 				outputID := types.SiafundOutputID(si.Parent.ID).V2ClaimOutputID()
 				sce, ok := siacoinElements[outputID]
 				if !ok {
@@ -164,6 +163,9 @@ func appliedEvents(cau chain.ApplyUpdate, walletAddress types.Address) (events [
 					SiacoinElement: sce.Copy(),
 				}, sce.MaturityHeight)
 			}
+		}
+		if !relevantV2Txn(txn, walletAddress) {
+			continue
 		}
 
 		addEvent(types.Hash256(txn.ID()), EventTypeV2Transaction, EventV2Transaction(txn), index.Height)
